@@ -32,7 +32,7 @@ HAND = {
     "<de::flavors::Slice<'de> as ->::new": spec([
         ("- => Slice{_pl: PhantomData, cursor: as_ptr(arg1), end: (as_ptr(arg1) + len(arg1))}", [[]])], {}),
     "<de::flavors::Slice<'de> as Flavor>::pop": spec([
-        ("raw-read *self.cursor; self.cursor := (self.cursor + 1) => Result::Ok(*self.cursor)", [[L("self.cursor - self.end", (None, -1))]]),
+        ("self.cursor := (self.cursor + 1) => Result::Ok(*self.cursor)", [[L("self.cursor - self.end", (None, -1))]]),
         ("- => Result::Err(Error::DeserializeUnexpectedEnd)", [[L("self.cursor - self.end", (0, None))]])], V_CE),
     "<de::flavors::Slice<'de> as Flavor>::try_take_n": spec([
         ("self.cursor := (arg2 + self.cursor) => Result::Ok(from_raw_parts(self.cursor, arg2))", [[L("arg2 + self.cursor - self.end", (None, 0))]]),
